@@ -25,8 +25,13 @@ class Dual(object):
         self.v, self.d = float(v), float(d)
 
 
+CHK_MAG = True      # the generator bounds magnitudes (conditioning); the oracle (impl.py) switches this off
+
+
 def _chk(x):
-    if not (math.isfinite(x.v) and math.isfinite(x.d)) or abs(x.v) > 1e4 or abs(x.d) > 1e6:
+    if not CHK_MAG:
+        return x
+    if not (math.isfinite(x.v) and math.isfinite(x.d)) or abs(x.v) > 1e3 or abs(x.d) > 1e5:
         raise Reject('magnitude')
     return x
 
